@@ -31,7 +31,13 @@ class Multiline:
     if prev is None:
       if datatype is not None:
         self.set_datatype(tagname, datatype)
-      self.set(tagname, value)
+      try:
+        self.set(tagname, value)
+      except:
+        # (a refused value does not leave the datatype of the tag behind)
+        if datatype is not None and tagname not in self._data:
+          self._datatype.pop(tagname, None)
+        raise
       return
     elif not isinstance(prev, gfapy.FieldArray):
       if tagname in self.SINGLE_DEFINITION_TAGS:
